@@ -207,7 +207,10 @@ fn build_entry(c: &Case) -> (Vec<u8>, Expected) {
                 exp.extend_from_slice(&concat(&s));
                 m.push(s);
             }
-            (sqpack::texture_entry(&header, &m, c.extra_header_128 as usize), Expected { standard_or_texture: Some(exp), model: None })
+            // a third of the textures with several levels have 1..3 units of unrelated bytes in front of the later levels
+            // (every level record carries its own offset)
+            let gaps: Vec<usize> = if c.seed % 3 == 1 { (0..m.len()).map(|i| if i == 0 { 0 } else { 1 + ((c.seed >> (8 + 2 * i as u64)) % 3) as usize }).collect() } else { vec![] };
+            (sqpack::texture_entry_with_gaps(&header, &m, c.extra_header_128 as usize, &gaps), Expected { standard_or_texture: Some(exp), model: None })
         }
         Entry::Model { version, stack, runtime, lods, decl, material, flags } => {
             let mut spec = ModelEntrySpec { version: *version, decl_num: *decl, material_num: *material, num_lods: lods.len() as u8, index_streaming: flags.0, edge_geometry: flags.1, ..Default::default() };
@@ -342,6 +345,19 @@ fn prop(c: &Case, ctx: &Ctx) -> PResult {
         let dir = TmpDir::new("c02");
         let p = dir.join(format!("040000.win32.dat{}", c.dat_id));
         std::fs::write(&p, &dat).unwrap();
+        // one direct read in thirty-two is of an entry stored far into a (sparse) data file: just below and above 2 GiB,
+        // just below and above 4 GiB - an entry may lie at any 128-aligned offset
+        let mut offset = offset;
+        if damaged_at.is_none() && c.seed % 32 == 9 {
+            use std::io::{Seek, SeekFrom, Write};
+            let far = [0x7800_0080u64, 0x8000_0000, 0xFFFF_FF80, 0x1_0000_0080][(c.seed >> 8) as usize % 4];
+            let mut f = std::fs::OpenOptions::new().write(true).open(&p).unwrap();
+            f.seek(SeekFrom::Start(far)).unwrap();
+            f.write_all(&entry).unwrap();
+            f.write_all(&content(c.seed, 78, 256, 0)).unwrap();
+            offset = far;
+            ctx.classf(format!("entry-offset:{:#x}", far));
+        }
         guard("SqPackData::read_from_offset", || {
             let mut d = physis::sqpack::SqPackData::from_existing(p.to_str().unwrap())?;
             if let Some(at) = damaged_at {
